@@ -15,6 +15,7 @@ import (
 	"github.com/ory/keto/ketoapi"
 
 	"github.com/gofrs/uuid"
+	"github.com/pkg/errors"
 	"github.com/stretchr/testify/assert"
 	"github.com/stretchr/testify/require"
 )
@@ -214,6 +215,10 @@ func (m *Mapper) FromTuple(ctx context.Context, ts ...*ketoapi.RelationTuple) (r
 
 	for _, t := range ts {
 		t := t
+		if t == nil {
+			// e.g. a JSON null in a list of tuples
+			return nil, errors.WithStack(ketoapi.ErrMalformedInput)
+		}
 		n, err := nm.GetNamespaceByName(ctx, t.Namespace)
 		if err != nil {
 			return nil, err
